@@ -35,7 +35,8 @@ UNITS['exec_e'] = dict(EXEC, cut=CUTNEST, threads={'vp_thr_entrant': ['a'], 'vp_
 UNITS['exec_ew'] = dict(EXEC, cut=CUTNEST, threads={'vp_thr_entrant': ['a'], 'vp_thr_worker': ['b']})
 UNITS['exec_l'] = dict(EXEC, threads={'vp_thr_waiter': ['a'], 'vp_thr_leaver': ['b']})
 HS = dict(wrapper='w_hs.cpp', mode='lcs', unroll=1, devirt=True, cxxflags=['-D__TBB_BUILD=1'],
-          cut=['timed_spin_wait_until', 'get_address_waiter', 'binary_semaphore1PEv', 'binary_semaphore1VEv'], pure=['get_address_waiter'],
+          cut=['timed_spin_wait_until', 'get_address_waiter', 'binary_semaphore1PEv', 'binary_semaphore1VEv', 'concurrent_monitor_mutex4lockEv', 'concurrent_monitor_mutex6unlockEv'],
+          pure=['get_address_waiter'],
           threads={'vp_thr_unlocker': ['a'], 'vp_thr_sleeper': ['b']})
 UNITS['hs'] = dict(HS)
 UNITS['hs_tso'] = dict(HS, tso=True)
